@@ -55,6 +55,8 @@ THEOREMS = [NS + n for n in [
     "evict_all_breaks_ancestors_witness",
     "generated_wrapper_policy_ok",
     "generated_compares_ignored_leaves",
+    "copy_imp_delta_empty_linked",
+    "missing_parent_link_move_witness",
 ]]
 
 
@@ -358,7 +360,7 @@ def show_edit(e, ids) -> str:
     return f"{tag}{ids[id(e.source)]}-{ids[id(e.target)]}"
 
 
-def real_case(src, tgt, pre_idx, delta_only, f, t_frac):
+def real_case(src, tgt, pre_idx, delta_only, f, t_frac, dialect=None):
     """Runs the real diff with taps. pre_idx: list of (src walk position, tgt walk position).
     Returns (protocol line, canonical real answer)."""
     _, exp, D = sg()
@@ -367,7 +369,8 @@ def real_case(src, tgt, pre_idx, delta_only, f, t_frac):
     pre = [(sw[i], tw[j]) for i, j in pre_idx]
     with Tap() as tap:
         try:
-            edits = D.diff(src, tgt, matchings=list(pre) or None, delta_only=delta_only, f=f, t=float(t_frac))
+            edits = D.diff(src, tgt, matchings=list(pre) or None, delta_only=delta_only, f=f, t=float(t_frac),
+                           **({"dialect": dialect} if dialect else {}))
             err = None
         except Exception as e:  # noqa
             edits, err = None, e
@@ -796,21 +799,195 @@ T_CHOICES = [Fraction(3, 5), Fraction(3, 5), Fraction(3, 5), Fraction(1, 5), Fra
 
 
 # ------------------------------------------------------------------------------------------ correspondence
+# ---- PARSED statements of each dialect's distinctive constructs (trees the base fragment never produces: other node
+#      classes, other constructors, parser paths that build nodes by hand).  Statements that do not parse are skipped.
+DIALECT_CORPUS = {
+    "clickhouse": [
+        "SELECT {abc: UInt32}",
+        "SELECT toDate({d: String}) AS d, count(*) FROM events GROUP BY d",
+        "SELECT * FROM t WHERE id = {id: UInt64} AND has({tags: Array(String)}, tag)",
+        "SELECT arrayJoin([1, 2, 3]) AS x",
+        "SELECT a FROM t FINAL SAMPLE 0.1",
+        "SELECT arrayMap(x -> x + 1, arr)",
+        "SELECT quantile(0.5)(x) FROM t",
+        "SELECT a FROM t ARRAY JOIN arr AS el",
+        "SELECT CAST(x AS Nullable(String))",
+        "SELECT a FROM t ORDER BY a LIMIT 1 BY b",
+        "SELECT map('a', 1)['a'], tuple(1, 2).1",
+    ],
+    "bigquery": [
+        "SELECT STRUCT(1 AS a, 'x' AS b) AS s",
+        "SELECT x FROM UNNEST([1, 2, 3]) AS x WITH OFFSET AS o",
+        "SELECT ARRAY<INT64>[1, 2]",
+        "SELECT a FROM `proj.ds.tbl`",
+        "SELECT SAFE_CAST(x AS INT64), @param",
+        "SELECT * EXCEPT (a) FROM t",
+        "SELECT * REPLACE (a + 1 AS a) FROM t",
+        "SELECT x FROM t QUALIFY ROW_NUMBER() OVER (PARTITION BY a ORDER BY b) = 1",
+        "SELECT DATE_ADD(d, INTERVAL 1 DAY), s.a.b FROM t",
+    ],
+    "duckdb": [
+        "SELECT {'a': 1, 'b': [1, 2]} AS s",
+        "SELECT [1, 2, 3][1]",
+        "SELECT list_transform(l, x -> x + 1)",
+        "SELECT * EXCLUDE (a) FROM t",
+        "SELECT a::INT, $1, ?",
+        "SELECT MAP {'k': 1}",
+        "SELECT x FROM t USING SAMPLE 10%",
+        "SELECT COLUMNS('a.*') FROM t",
+        "PIVOT t ON a USING SUM(b)",
+    ],
+    "tsql": [
+        "SELECT TOP 5 a FROM t",
+        "SELECT TOP 5 PERCENT a FROM t ORDER BY a",
+        "SELECT a INTO #tmp FROM t",
+        "SELECT CONVERT(INT, x), @v",
+        "SELECT a FROM t WITH (NOLOCK)",
+        "SELECT ISNULL(a, 0)",
+        "SELECT a FROM t ORDER BY a OFFSET 5 ROWS FETCH NEXT 3 ROWS ONLY",
+        "SELECT [a b] FROM [t]",
+        "DECLARE @x INT = 1",
+    ],
+    "snowflake": [
+        "SELECT f.value FROM t, LATERAL FLATTEN(input => t.arr) AS f",
+        "SELECT a:b.c::STRING FROM t",
+        "SELECT $1, $2 FROM @stage",
+        "SELECT IFF(a > 1, 'x', 'y')",
+        "SELECT OBJECT_CONSTRUCT('a', 1)",
+        "SELECT * FROM t SAMPLE (10)",
+        "SELECT x FROM t QUALIFY RANK() OVER (ORDER BY a) = 1",
+        "SELECT ARRAY_AGG(a) WITHIN GROUP (ORDER BY a)",
+        "SELECT :name, ?",
+    ],
+    "postgres": [
+        "SELECT a::INT[], ARRAY[1, 2, 3]",
+        "SELECT x ->> 'k', y #> '{a,b}' FROM t",
+        "SELECT DISTINCT ON (a) a, b FROM t ORDER BY a",
+        "SELECT * FROM GENERATE_SERIES(1, 3) AS g(x)",
+        "SELECT a FROM t WHERE b ILIKE '%x%'",
+        "SELECT $1::TEXT, %s, %(name)s",
+        "SELECT a FROM t FOR UPDATE SKIP LOCKED",
+        "INSERT INTO t (a) VALUES (1) ON CONFLICT (a) DO UPDATE SET a = 2 RETURNING a",
+        "SELECT x FROM t WHERE a = ANY(ARRAY[1, 2])",
+    ],
+    "mysql": [
+        "SELECT a / b, a DIV b FROM t",
+        "SELECT `a` FROM `t` LIMIT 5, 10",
+        "INSERT INTO t (a) VALUES (1) ON DUPLICATE KEY UPDATE a = 2",
+        "SELECT GROUP_CONCAT(a ORDER BY b SEPARATOR ',') FROM t",
+        "SELECT a FROM t FORCE INDEX (i)",
+        "SELECT CAST(a AS UNSIGNED), ?, %s",
+    ],
+    "spark": [
+        "SELECT TRANSFORM(arr, x -> x + 1)",
+        "SELECT a FROM t LATERAL VIEW EXPLODE(arr) e AS x",
+        "SELECT /*+ BROADCAST(t) */ a FROM t",
+        "SELECT STRUCT(1, 2), MAP('a', 1)",
+        "SELECT a FROM t TABLESAMPLE (10 PERCENT)",
+        "SELECT :param, ${var}",
+    ],
+    "hive": ["SELECT a FROM t LATERAL VIEW EXPLODE(arr) e AS x", "SELECT ${hiveconf:x}", "SELECT a FROM t CLUSTER BY a"],
+    "oracle": [
+        "SELECT a FROM t WHERE ROWNUM < 5",
+        "SELECT a FROM t START WITH parent IS NULL CONNECT BY PRIOR id = parent",
+        "SELECT NVL(a, 0) FROM dual",
+        "SELECT a FROM t FETCH FIRST 5 ROWS ONLY",
+        "SELECT a FROM t, u WHERE t.a (+) = u.a",
+        "SELECT :x, :1 FROM dual",
+    ],
+    "presto": [
+        "SELECT x, i FROM UNNEST(arr) WITH ORDINALITY AS t(x, i)",
+        "SELECT TRY_CAST(a AS INTEGER), ROW(1, 2)",
+        "SELECT APPROX_DISTINCT(a), ELEMENT_AT(m, 'k')",
+        "SELECT ?",
+    ],
+    "trino": ["SELECT JSON_QUERY(j, 'lax $.a'), TRY(a / b)", "SELECT * FROM t FOR TIMESTAMP AS OF TIMESTAMP '2020-01-01'"],
+    "redshift": ["SELECT a FROM t WHERE b SIMILAR TO 'x%'", "SELECT LISTAGG(a, ',') WITHIN GROUP (ORDER BY a) FROM t", "SELECT c.o FROM t AS c, c.orders AS o"],
+    "sqlite": ["SELECT a FROM t WHERE a GLOB 'x*'", "SELECT ?1, :a, @b, $c", "SELECT a FROM t LIMIT 5 OFFSET 2"],
+    "teradata": ["SEL a FROM t SAMPLE 5", "SELECT a FROM t QUALIFY ROW_NUMBER() OVER (ORDER BY a) = 1"],
+    "databricks": ["SELECT a:b.c FROM t", "SELECT :p, ? FROM t"],
+    "starrocks": ["SELECT a FROM t, UNNEST(arr) AS u(x)"],
+    "athena": ["SELECT a FROM t TABLESAMPLE BERNOULLI (10)"],
+    "exasol": ["SELECT a FROM t GROUP BY LOCAL.a"],
+    "materialize": ["SELECT MAP['a' => 1]"],
+}
+
+
+def dialect_corpus():
+    """-> [(dialect, sql)] for the statements that parse on this tree"""
+    out = []
+    for d, stmts in DIALECT_CORPUS.items():
+        for q in stmts:
+            try:
+                parse(q, d)
+                out.append((d, q))
+            except Exception:  # noqa
+                pass
+    return out
+
+
+def link_violations(root):
+    """The C08 parent-link invariant the diff model assumes of its inputs: every child knows its parent, its arg key and
+    its position. -> list of descriptions (empty = holds)"""
+    bad = []
+    if root.parent is not None:
+        bad.append(f"root {type(root).__name__} has a parent")
+    for n in root.walk():
+        for k, v in n.args.items():
+            vs = v if isinstance(v, list) else [v]
+            for i, x in enumerate(vs):
+                if hasattr(x, "args") and hasattr(x, "parent"):
+                    if x.parent is not n or x.arg_key != k or (isinstance(v, list) and x.index != i):
+                        bad.append(f"{type(x).__name__} under {type(n).__name__}.{k}: parent={type(x.parent).__name__ if x.parent is not None else None} arg_key={x.arg_key!r}")
+    return bad
+
+
+def build_case(case):
+    src = parse(case["a"], case.get("read"))
+    mode = case.get("mode")
+    if mode == "copy":
+        return src, src.copy()
+    if mode == "copy-rev":
+        return src.copy(), src
+    return src, parse(case["b"], case.get("read"))
+
+
 def correspond(chk: Check) -> list:
     rng = chk.rng
-    n = chk.pick(260, 4000)
+    n = chk.pick(200, 4000)
     cases = []
     for a, b in CORPUS_SQL:
-        cases.append(("corpus", a, b))
-    while len(cases) < n:
-        cases.append(gen_pair(rng, chk))
+        cases.append({"kind": "corpus", "a": a, "b": b})
+    # every dialect's distinctive constructs: tree vs its copy (both directions), and pairs of statements of one dialect
+    dc = dialect_corpus()
+    chk.cov["dialect_corpus"] = {"statements": len(dc), "dialects": len({d for d, _ in dc})}
+    for i, (d, q) in enumerate(dc):
+        cases.append({"kind": "dialect-copy", "a": q, "b": q, "read": d, "mode": "copy" if i % 2 == 0 else "copy-rev"})
+        if chk.quick and i % 3:
+            continue
+        d2, q2 = dc[(i + 1) % len(dc)]
+        if d2 == d:
+            cases.append({"kind": "dialect-pair", "a": q, "b": q2, "read": d})
+    while len(cases) < n + len(dc):
+        kind, a, b = gen_pair(rng, chk)
+        cases.append({"kind": kind, "a": a, "b": b})
     lines, expect, meta = [], [], []
     bad_inputs = []
-    for ci, (kind, a, b) in enumerate(cases):
+    for ci, case in enumerate(cases):
+        kind, a, b, read = case["kind"], case["a"], case["b"], case.get("read")
         try:
-            src, tgt = parse(a), parse(b)
+            src, tgt = build_case(case)
         except Exception as e:  # noqa
             chk.count("gen:unparseable")
+            continue
+        # the model (and diff.py's Move test) assume both inputs satisfy the C08 link invariant: a parsed / copied tree
+        # that violates it is a broken tie, and the case goes to the search
+        lv = link_violations(src) + link_violations(tgt)
+        if lv:
+            chk.correspondence_broken("an input tree violates the parent-link invariant (C08) the diff model assumes",
+                                      {"src": a, "tgt": b, "read": read, "mode": case.get("mode"), "what": lv[:3]})
+            bad_inputs.append({"src": a, "tgt": b, "pre": [], "delta_only": False, "f": 0.6, "t": [3, 5], "read": read,
+                               "mode": case.get("mode")})
             continue
         size = sum(1 for _ in src.walk()) + sum(1 for _ in tgt.walk())
         if size > 260:
@@ -818,16 +995,17 @@ def correspond(chk: Check) -> list:
             continue
         chk.count("pair:" + kind)
         variants = [([], False, 0.6, Fraction(3, 5))]
-        pre = random_pre(rng, src, tgt)
-        variants.append((pre, rng.random() < 0.5, rng.choice(F_CHOICES), rng.choice(T_CHOICES)))
-        if rng.random() < 0.35:
-            variants.append(([], True, rng.choice(F_CHOICES), rng.choice(T_CHOICES)))
+        if not kind.startswith("dialect") or not chk.quick:
+            pre = random_pre(rng, src, tgt)
+            variants.append((pre, rng.random() < 0.5, rng.choice(F_CHOICES), rng.choice(T_CHOICES)))
+            if rng.random() < 0.35:
+                variants.append(([], True, rng.choice(F_CHOICES), rng.choice(T_CHOICES)))
         for vi, (pre_idx, delta_only, f, tf) in enumerate(variants):
             if vi:
-                src, tgt = parse(a), parse(b)  # fresh trees: a diff that alters its inputs must not poison the next variant
+                src, tgt = build_case(case)  # fresh trees: a diff that alters its inputs must not poison the next variant
             fp_before = (fingerprint(src, False), fingerprint(tgt, False))
             try:
-                line, ans, axiom_failures = real_case(src, tgt, pre_idx, delta_only, f, tf)
+                line, ans, axiom_failures = real_case(src, tgt, pre_idx, delta_only, f, tf, dialect=read)
             except HarnessError as e:
                 chk.correspondence_broken("the real diff left a tree the harness cannot encode", {"src": a, "tgt": b, "what": str(e)})
                 bad_inputs.append({"src": a, "tgt": b, "pre": pre_idx, "delta_only": delta_only, "f": f, "t": [tf.numerator, tf.denominator]})
@@ -839,7 +1017,8 @@ def correspond(chk: Check) -> list:
                 chk.correspondence_broken("oracle axiom (DiceOk / EqcCongr) fails on the real code", {"src": a, "tgt": b, "what": af})
             lines.append(line)
             expect.append(ans)
-            meta.append({"src": a, "tgt": b, "pre": pre_idx, "delta_only": delta_only, "f": f, "t": [tf.numerator, tf.denominator]})
+            meta.append({"src": a, "tgt": b, "pre": pre_idx, "delta_only": delta_only, "f": f, "t": [tf.numerator, tf.denominator],
+                         "read": read, "mode": case.get("mode")})
             chk.count("variant:" + ("pre" if pre_idx else "nopre") + ("/delta" if delta_only else "/full"))
             for tag, cnt in (("edit:K", ans.count(" K")), ("edit:U", ans.count(" U")), ("edit:V", ans.count(" V")),
                              ("edit:R", ans.count(" R")), ("edit:I", ans.count(" I"))):
@@ -1014,6 +1193,9 @@ def local_cause(a, b) -> str:
         x, y = qa.pop(0), qb.pop(0)
         if type(x) is not type(y):
             return "type:" + type(x).__name__
+        for node in (x, y):
+            if any(k.parent is not node for k in node.iter_expressions()):
+                return "missing-parent-link:" + type(node).__name__  # the C08 link invariant fails on an input
         ix = [(k.arg_key, k.this, bool(k.args.get("quoted"))) for k in x.iter_expressions() if is_ident(k)]
         iy = [(k.arg_key, k.this, bool(k.args.get("quoted"))) for k in y.iter_expressions() if is_ident(k)]
         if ix != iy:
@@ -1021,6 +1203,9 @@ def local_cause(a, b) -> str:
         lx, ly = dict(D._get_non_expression_leaves(x)), dict(D._get_non_expression_leaves(y))
         if lx != ly:
             low = lambda d: {k: (v.lower() if isinstance(v, str) else v) for k, v in d.items()}
+            truthy = lambda d: {k: v for k, v in d.items() if not (v is False or v == [])}
+            if truthy(lx) == truthy(ly):
+                return "leaf-falsy:" + type(x).__name__  # False / [] on one side, absent on the other
             return ("leaf-case:" if low(lx) == low(ly) else "leaf-value:") + type(x).__name__
         cx = [k for k in x.iter_expressions() if not is_ident(k)]
         cy = [k for k in y.iter_expressions() if not is_ident(k)]
@@ -1029,6 +1214,19 @@ def local_cause(a, b) -> str:
         qa += cx
         qb += cy
     return "shape" if qa or qb else "none"
+
+
+def materialise(s, t, kw):
+    """the pair a case is about: `_mode` copy / copy-rev / reparse derive the second tree from the first"""
+    mode = (kw or {}).get("_mode")
+    if mode == "copy":
+        return s, s.copy()
+    if mode == "copy-rev":
+        return s.copy(), s
+    if mode == "reparse":
+        d = (kw or {}).get("read")
+        return s, parse(s.sql(dialect=d), d)
+    return s, t
 
 
 def oracle(src, tgt, pre_idx=(), share=None, kw=None):
@@ -1040,6 +1238,7 @@ def oracle(src, tgt, pre_idx=(), share=None, kw=None):
     _, exp, D = sg()
     kw = dict(kw or {})
     kw.pop("read", None)
+    kw.pop("_mode", None)
     prehash = kw.pop("_prehash", None)
     out = []
     if share == "same":
@@ -1153,7 +1352,7 @@ def oracle(src, tgt, pre_idx=(), share=None, kw=None):
 
 def copy_oracle(tree, kw=None):
     _, _, D = sg()
-    kw = {k: v for k, v in (kw or {}).items() if k not in ("read", "_prehash")}
+    kw = {k: v for k, v in (kw or {}).items() if k not in ("read", "_prehash", "_mode")}
     try:
         fp0 = fingerprint(tree)
         d = D.diff(tree, tree.copy(), delta_only=True, **kw)
@@ -1258,13 +1457,18 @@ def load_tree(payload):
     return load(payload)
 
 
-def report(chk, kind, detail, src, tgt, pre_idx, share, kw):
+def report(chk, kind, detail, src, tgt, pre_idx, share, kw, sql=None):
     """minimise (for plain pairs) and report"""
     cause = detail.rsplit(": ", 1)[-1] if kind in ("empty-unequal", "equal-nonempty", "mutated-input") else ""
+    known_classes = chk.cov.setdefault("_known_classes", [])
+    if [kind, cause] in known_classes:
+        chk.count("search:repeat-of-known-class")
+        return  # same class as a finding already matched to a known entry in this run: no need to minimise it again
+    n_known = len(chk.known_hits)
     if not pre_idx and not share:
         def still_bad(a, b):
             # judged on what a replay will load (serde round trip), so a minimised case always replays
-            res = oracle(load_tree(dump_tree(a)), load_tree(dump_tree(b)), (), None, kw)
+            res = oracle(*materialise(load_tree(dump_tree(a)), load_tree(dump_tree(b)), kw), (), None, kw)
             return any(k == kind and (not cause or d.endswith(cause)) for k, d in res)
 
         orig = (src.copy(), tgt.copy())
@@ -1273,7 +1477,7 @@ def report(chk, kind, detail, src, tgt, pre_idx, share, kw):
                 src, tgt = minimise(src.copy(), tgt.copy(), still_bad, chk.pick(6.0, 20.0))
         except Exception:  # noqa
             src, tgt = orig
-        res = [d for k, d in oracle(load_tree(dump_tree(src)), load_tree(dump_tree(tgt)), (), None, kw) if k == kind]
+        res = [d for k, d in oracle(*materialise(load_tree(dump_tree(src)), load_tree(dump_tree(tgt)), kw), (), None, kw) if k == kind]
         if res:
             detail = res[0]
         else:
@@ -1285,8 +1489,13 @@ def report(chk, kind, detail, src, tgt, pre_idx, share, kw):
     except Exception:  # noqa
         ssql = tsql = None
     chk.report_violation(key, detail, {"kind": kind, "src": dump_tree(src), "tgt": dump_tree(tgt), "src_sql": ssql, "tgt_sql": tsql,
-                                        "pre": [list(p) for p in pre_idx], "share": share, "kw": kw},
+                                        "pre": [list(p) for p in pre_idx], "share": share, "kw": kw,
+                                        # the statements as parsed (a serialised tree is rebuilt by serde.load, which
+                                        # need not reproduce what the PARSER built, e.g. missing parent links)
+                                        "parse": {"a": sql[0], "b": sql[1], "read": (kw or {}).get("read")} if sql else None},
                          context={"kind": kind, "cause": cause})
+    if len(chk.known_hits) > n_known:
+        known_classes.append([kind, cause])
 
 
 def share_levels(walk):
@@ -1364,7 +1573,12 @@ def search(chk: Check, hints: list, budget_s: float) -> None:
     tried = found = 0
     todo = [(a, b, [], None, {}) for a, b in CORPUS_SQL]
     for h in hints[:25]:
-        todo.append((h["src"], h["tgt"], [tuple(p) for p in h["pre"]], None, {"f": h["f"], "t": h["t"][0] / h["t"][1]}))
+        hk = {"f": h["f"], "t": h["t"][0] / h["t"][1]}
+        if h.get("read"):
+            hk["read"], hk["dialect"] = h["read"], h["read"]
+        if h.get("mode"):
+            hk["_mode"] = h["mode"]
+        todo.append((h["src"], h["tgt"], [tuple(p) for p in h["pre"]], None, hk))
     corpus_dir = os.path.join(os.path.dirname(os.path.dirname(os.path.dirname(os.path.abspath(__file__)))), "corpus", "C20")
     if os.path.isdir(corpus_dir):
         for fn in sorted(os.listdir(corpus_dir)):
@@ -1380,7 +1594,7 @@ def search(chk: Check, hints: list, budget_s: float) -> None:
         tried += 1
         read = (kw or {}).get("read")
         try:
-            src, tgt = parse(a, read), parse(b, read)
+            src, tgt = materialise(parse(a, read), parse(b, read), kw)
         except Exception:  # noqa
             chk.count("search:unparseable")
             return
@@ -1394,7 +1608,7 @@ def search(chk: Check, hints: list, budget_s: float) -> None:
             chk.count("search:dialect=" + str((kw or {}).get("dialect")) + "/read=" + str(read))
             if tap.inner_dice:
                 chk.count("search:dialect-case-with-inner-node-dice")
-        if not share and not pre_idx:
+        if not share and not pre_idx and not (kw or {}).get("_mode"):
             res += copy_oracle(parse(a, read), kw)
         chk.count("search:" + (("share-" + (share if isinstance(share, str) else share[0] if len(share) == 3 else "s2t")
                                  + ("-equal" if a == b else "")) if share else "pre" if pre_idx else "plain"))
@@ -1406,16 +1620,28 @@ def search(chk: Check, hints: list, budget_s: float) -> None:
             found += 1
             if kind == "copy-nonempty":
                 s1 = parse(a, read)
-                report(chk, kind, detail, s1, s1.copy(), (), None, kw)
+                report(chk, kind, detail, s1, s1.copy(), (), None, kw, sql=(a, a))
             else:
                 # fresh, unshared trees for minimisation / replay payload
-                report(chk, kind, detail, parse(a, read), parse(b, read), tuple(pre_idx), share, kw)
+                report(chk, kind, detail, parse(a, read), parse(b, read), tuple(pre_idx), share, kw, sql=(a, b))
 
     for item in todo:
         if len(chk.violations) >= 3 or time.time() - t0 > 2 * budget_s:
             break
         consider(*item)
     # deterministic first: every generator-rewritten construct, every diff dialect family, band pairs
+    # PARSED statements of every dialect's distinctive constructs: tree vs its copy (both directions, must be all-Keep),
+    # tree vs the re-parse of its own SQL, pairs of statements of one dialect (partition / inputs unchanged)
+    dc = dialect_corpus()
+    for i, (d, q) in enumerate(dc):
+        for mode in ("copy", "copy-rev", "reparse"):
+            if len(chk.violations) < 3:
+                consider(q, q, [], None, {"read": d, "dialect": d, "_mode": mode})
+                chk.count("search:corpus-" + mode)
+        d2, q2 = dc[(i + 1) % len(dc)]
+        if d2 == d and (i % 3 == 0 or not chk.quick) and len(chk.violations) < 3:
+            consider(q, q2, [], None, {"read": d, "dialect": d})
+            chk.count("search:corpus-pair")
     for read, tpl in DIALECT_TEMPLATES:
         for dd in (None, "tsql", read):
             names = ["a", "b", "c", "x", "y", "id"]
@@ -1497,7 +1723,7 @@ def run(chk: Check) -> None:
         if proved:
             raise
         chk.note(f"model driver unavailable ({e}); continuing with the search on the real code")
-    budget = chk.pick(14, 240)
+    budget = chk.pick(12, 240)
     if chk.broken:
         budget *= 3
     search(chk, hints, budget)
@@ -1512,13 +1738,20 @@ def replay(path: str) -> int:
     if not r:
         print(json.dumps(rec, indent=1)[:4000])
         return 1
-    src, tgt = load_tree(r["src"]), load_tree(r["tgt"])
     share = r.get("share")
     share = list(share) if isinstance(share, (list, tuple)) else share
-    if r["kind"] == "copy-nonempty":
-        res = copy_oracle(src, r.get("kw"))
-    else:
-        res = [x for x in oracle(src, tgt, [tuple(p) for p in r.get("pre", [])], share, r.get("kw") or {})]
+    kw = r.get("kw") or {}
+
+    def run_on(src, tgt):
+        if r["kind"] == "copy-nonempty" or (r["kind"] == "mutated-input" and r.get("what_copy")):
+            return copy_oracle(src, kw)
+        src, tgt = materialise(src, tgt, kw)
+        return list(oracle(src, tgt, [tuple(p) for p in r.get("pre", [])], share, kw))
+
+    res = run_on(load_tree(r["src"]), load_tree(r["tgt"]))
+    if not [x for x in res if x[0] == r["kind"]] and r.get("parse"):
+        pz = r["parse"]
+        res = run_on(parse(pz["a"], pz.get("read")), parse(pz["b"], pz.get("read")))
     res = [x for x in res if x[0] == r["kind"]] or res
     print("replay:", "VIOLATES: " + "; ".join(f"{k}: {d}" for k, d in res) if res else "holds")
     return 1 if res else 0
